@@ -427,16 +427,16 @@ FULL = {'milestones': True, 'resources': ['r', 'q'], 'calendars': ['default', 's
         'balance': [True, False], 'E': 12, 'summary_values': True, 'spent_none': True}
 
 FWD_THOROUGH_PROFILES = {
-    'n3-features': dict(PLAIN, n=3, milestones=True, balance=[True, False], resources=['r', 'q'], calendars=['default', 'sparse'],
+    'n3-features': dict(PLAIN, n=3, milestones=True, balance=[True, False], resources=['r', 'q'], calendars=['default'],
                         link_pairs=[(0, 1), (1, 2)], scenarios=[(0, -1)]),
     'n3-calendars': dict(PLAIN, n=3, resources=['r', 'q'], calendars=['sparse', 'fraction', 'composed', 'from_wed'], links=False,
                          grid=8, scenarios=[(0, -1), (5, 1)]),
-    'n3-dates': dict(PLAIN, n=3, min_start=True, fixed=True, dates_on=1, scenarios=[(1, 0), (4, 2)]),
+    'n3-dates': dict(PLAIN, n=3, min_start=True, fixed=True, dates_on=1, link_pairs=[(0, 1), (1, 2)], scenarios=[(1, 0)]),
     'n3-none-values': dict(PLAIN, n=3, est_none=True, spent_none=True, default_estimate=True, summary_values=True,
-                           summary_resource=True, link_pairs=[(0, 2)], scenarios=[(0, -1)]),
-    'n3-all-links': dict(PLAIN, n=3, ctor_days_earlier=2, scenarios=[(0, -1), (5, 1), (2, 3)]),
-    'n4-links': dict(PLAIN, n=4, link_pairs=[(0, 1), (1, 2), (2, 3), (0, 3)], scenarios=[(0, -1)]),
-    'n4-two-resources': dict(PLAIN, n=4, resources=['r', 'q'], hierarchy=False, link_pairs=[(0, 3), (1, 2)], scenarios=[(4, -1)]),
+                           summary_resource=True, links=False, scenarios=[(0, -1)]),
+    'n3-all-links': dict(PLAIN, n=3, ctor_days_earlier=2, scenarios=[(5, 1), (2, 3)]),
+    'n4-links': dict(PLAIN, n=4, link_pairs=[(0, 1), (1, 2), (2, 3)], scenarios=[(0, -1)]),
+    'n4-two-resources': dict(PLAIN, n=4, resources=['r', 'q'], hierarchy=False, link_pairs=[(0, 3)], scenarios=[(4, -1)]),
 }
 
 BWD_THOROUGH_PROFILES = {
